@@ -268,6 +268,19 @@ pub fn gen_multi_mode(rng: &mut Rng, p: &GenParams, la_percent: usize, max_modes
             }
         }
     }
+    // mode names need not be distinct: now and then one name is used twice, or by all modes
+    if !cfg!(miri) && modes.len() >= 2 && rng.chance(1, 12) {
+        if rng.chance(1, 2) {
+            let n0 = modes[0].name.clone();
+            for m in modes.iter_mut() {
+                m.name = n0.clone();
+            }
+        } else {
+            let a = rng.below(modes.len());
+            let b = (a + 1) % modes.len();
+            modes[b].name = modes[a].name.clone();
+        }
+    }
     ScannerCfg { modes }
 }
 
